@@ -863,7 +863,7 @@ contract(M + ':Cell.add_app', types={'allocation': 'Allocation', 'app': 'Applica
                   ('C05', 'ident_weak(self, MEMBERS)'),
                   # C03 standing clause: moving an instance to another allocation must leave it on a server of
                   # its (new) partition with its (new) traits
-                  ('C03', 'standing_ok(self, MEMBERS)', 'standing')],
+                  ('C03,C07', 'standing_ok(self, MEMBERS)', 'standing')],
          modifies=['self.apps', 'self.identity_groups', 'alloc', 'app.allocation', 'app.identity_group_ref',
                    ('Allocation.apps', 'lambda a: True'), ('Application.allocation', 'lambda a: True')],
          props=['C01', 'C05'])
